@@ -21,7 +21,7 @@ CHECKS = {
  'C04': dict(
   technique='differential runtime monitor at Function.__call__ against an independent reference evaluator (vf/oracle/refsem.py, written from the language reference over the Python ast of the same source text; exact-rational arithmetic + independent rounding oracle)',
   category='exploration',
-  text='2400 (40000) generated source programs from five grammar profiles (nested / sequential with-blocks incl. contexts computed at run time and from run-time integer arguments, with ... as c, loops over lists / ranges / zip / enumerate, while loops, branches, early returns inside with inside loops, up to three helper functions with and without their own context called under different active contexts, list mutation through aliases and through callees, comprehensions, strict slices and indices, tuples, min / max / sum / any / all, comparison chains, short-circuit operators, asserts) plus 17 directed corner programs (signed-zero literals and chains of negations, negated literals under narrow contexts, context constructor arguments that only the exact evaluation gets right, early return inside with / loops, aliasing vs slices, loop over a list mutated in the body, min / max ties and NaN, helper context selection) are decorated by the real @fp.fpy and called on 6 (10) argument tuples incl. +-0, +-inf, NaN, non-representable values, ints, under callers {none, FP32, 5-bit float, REAL, saturating fixed point, 8-bit IEEE RTN, 3-bit float with subnormals RAZ}; the directed ones on all pairs of a 14-value pool x 7 callers. The reference evaluator interprets the same text; results are compared structurally (sign of zero, NaN, infinities, bool vs number, list vs tuple, lengths); where the reference is stuck (failed assert, index / slice / zip strictness, cast, rounding that must raise) the implementation has to raise. Per-operator observation counts are recorded; the run is inconclusive if any arithmetic or comparison operator was evaluated fewer than 20 times.',
+  text='8000 (60000) generated source programs from five grammar profiles (nested / sequential with-blocks incl. contexts computed at run time and from run-time integer arguments, with ... as c, loops over lists / ranges / zip / enumerate, while loops, branches, early returns inside with inside loops, up to three helper functions with and without their own context called under different active contexts, list mutation through aliases and through callees, comprehensions, strict slices and indices, tuples, min / max / sum / any / all, comparison chains, short-circuit operators, asserts) plus 17 directed corner programs (signed-zero literals and chains of negations, negated literals under narrow contexts, context constructor arguments that only the exact evaluation gets right, early return inside with / loops, aliasing vs slices, loop over a list mutated in the body, min / max ties and NaN, helper context selection) are decorated by the real @fp.fpy and called on 6 (10) argument tuples incl. +-0, +-inf, NaN, non-representable values, ints, under callers {none, FP32, 5-bit float, REAL, saturating fixed point, 8-bit IEEE RTN, 3-bit float with subnormals RAZ}; the directed ones on all pairs of a 14-value pool x 7 callers. The reference evaluator interprets the same text; results are compared structurally (sign of zero, NaN, infinities, bool vs number, list vs tuple, lengths); where the reference is stuck (failed assert, index / slice / zip strictness, cast, rounding that must raise) the implementation has to raise. Per-operator observation counts are recorded; the run is inconclusive if any arithmetic or comparison operator was evaluated fewer than 20 times.',
   ref='DESIGN.md 1.6, 2/C04',
   note='Trusted: vf/oracle/refsem.py + vf/oracle/{arith,rnd,describe}.py (the rounding oracle is the one C01 validates the contexts against). Runs on which the reference leaves the result open (sign of an exact zero sum under round-toward-negative, several admissible overflow results, an irrational result under REAL) and NotImplementedError of the implementation are counted, not compared. Not generated: foreign values beyond context constructors, print, primitives, transcendental functions (C03), round_at, fst/snd, dim/size.'),
  'C05': dict(
